@@ -107,6 +107,31 @@ EmbXmlLex == {"notXml", "illformed", "empty", "blank", "otherElement",
               "twoRoots", "missingAttr", "badChild"}
 VTypeLex == {"unknown", "suffix", "upper", "empty", "nonLatin"}
 
+(* ---- lexemes at the positions the handler COMPARES or ECHOES -------------*)
+(* Besides the converted positions there are the strings of the request the *)
+(* handler compares with a fixed NAME (the export method name, the          *)
+(* parameter name, the header values) and the strings it ECHOES into its    *)
+(* answer (MESSAGE/@ID and EXPMETHODCALL/@NAME into the export response,    *)
+(* the three version texts into CIMErrorDetails).                           *)
+(* CaseLex: the expected name in another lexical case (CIM names and media  *)
+(* types are case-insensitive, so a handler may accept or refuse them).     *)
+(* CharLex: the text contains a character of one class of the XML 1.0 Char  *)
+(* production (every one of them may stand in an attribute value of a       *)
+(* well-formed request, literally or as a character reference):             *)
+(*   del U+007F | c1 U+0080-84,86-9F (XML 1.1 RestrictedChar, legal in 1.0) *)
+(*   nel U+0085 | latin1 U+00A0-FF | bmp | lsep U+2028/2029 | fffd U+FFFD   *)
+(*   nonchar U+FDD0-FDEF, U+nFFFE/F (discouraged, legal) | astral           *)
+CaseLex == {"upper", "lower", "mixed"}
+CharLex == {"del", "c1", "nel", "latin1", "bmp", "lsep", "fffd", "nonchar",
+            "astral"}
+(* nesting depth of the value structure of the indication: embedded         *)
+(* instances (each level is a string-valued property holding the escaped    *)
+(* XML of the next one; the size grows with the square of the depth, so     *)
+(* only up to some tens) and reference-valued keys (INSTANCENAME /          *)
+(* KEYBINDING / VALUE.REFERENCE / INSTANCENAME ..., linear size)            *)
+DepthLex == {"few", "tens", "hundreds", "thousands"}
+    \* 2-8 | 20-60 | 200-400 | 1000-5000
+
 (* position -> lexeme classes that can stand there                         *)
 LexAt ==
   [ \* TYPE of an element that has a value to convert
@@ -128,8 +153,19 @@ LexAt ==
     dtValue |-> DtLex, char16Value |-> C16Lex, arraySize |-> ASizeLex,
     embAttr |-> EmbAttrLex,                     \* on a string property
     embAttrNum |-> EmbAttrLex \cup {"validWord"}, \* on a numeric property
-    embValue |-> EmbXmlLex, embArrValue |-> EmbXmlLex ]
+    embValue |-> EmbXmlLex, embArrValue |-> EmbXmlLex,
+    embDepth |-> {"few", "tens"}, refDepth |-> DepthLex,
+    \* echoed / compared strings outside the indication instance
+    msgId |-> CharLex,                       \* MESSAGE/@ID
+    methName |-> CharLex \cup CaseLex,       \* EXPMETHODCALL/@NAME
+    paramName |-> CaseLex,                   \* EXPPARAMVALUE/@NAME
+    dtdVer |-> CharLex, cimVer |-> CharLex, protoVer |-> CharLex,
+    \* header values the handler compares: an admissible value in another
+    \* lexical case (the header dimension of such a class is "ok")
+    acceptVal |-> {"upper", "mixed"}, charsetVal |-> {"upper", "mixed"},
+    ctypeVal |-> {"upper", "mixed"}, cencVal |-> {"upper", "mixed"} ]
 LexPositions == DOMAIN LexAt
+HdrPositions == {"acceptVal", "charsetVal", "ctypeVal", "cencVal"}
 AllLexemes == UNION {LexAt[p] : p \in LexPositions}
 
 (* members of the language of the position by every reading of DSP0201 /   *)
@@ -143,21 +179,48 @@ Sure(p, x) ==
   \/ p = "realValue" /\ x \in {"fraction", "exponent"}
   \/ p \in {"boolValue", "boolAttr"} /\ x = "upper"
   \/ p = "dtValue" /\ x = "interval"
+  \* a message id is an arbitrary string: every XML character may occur
+  \/ p = "msgId"
+  \* "arbitrary indication instances": a handful of nested embedded
+  \* instances / reference keys (deeper nesting: any ONE well-formed answer,
+  \* see "lexeme" - the statement does not forbid a depth limit)
+  \/ p \in {"embDepth", "refDepth"} /\ x = "few"
 
 Requests == [verb : Verbs, accept : HdrVals, charset : HdrVals,
              range : RangeVals, ctype : HdrVals, cenc : HdrVals,
              clen : CLens, body : Bodies, lpos : {"none"}, lex : {"none"}]
 
-LexBodyOf(p, x) == IF Sure(p, x) THEN "validExport" ELSE "lexeme"
+(* body class of a request whose only peculiarity is the lexeme: a method  *)
+(* name that is not ExportIndication by any reading is an unknown method    *)
+(* (export ERROR demanded), a version text with such a character is a      *)
+(* wrong version (4xx/5xx + CIMError demanded); a NAME in another lexical   *)
+(* case, a deep nesting and everything else: "lexeme"                       *)
+LexBodyOf(p, x) ==
+  CASE Sure(p, x) -> "validExport"
+    [] p = "methName" /\ x \in CharLex -> "unknownMethod"
+    [] p = "dtdVer" -> "wrongDtdVersion"
+    [] p = "cimVer" -> "wrongCimVersion"
+    [] p = "protoVer" -> "wrongProtocolVersion"
+    [] OTHER -> "lexeme"
 LexRequestType ==
   [verb : Verbs, accept : HdrVals, charset : HdrVals, range : RangeVals,
    ctype : HdrVals, cenc : HdrVals, clen : CLens,
-   body : {"validExport", "lexeme"}, lpos : LexPositions, lex : AllLexemes]
+   body : {"validExport", "lexeme", "unknownMethod", "wrongDtdVersion",
+           "wrongCimVersion", "wrongProtocolVersion"},
+   lpos : LexPositions, lex : AllLexemes]
+(* a case variant of a header value presupposes that the header is there   *)
+(* with an admissible value                                                 *)
+HdrPosConsistent(c) ==
+  /\ c.lpos = "acceptVal" => c.accept = "ok"
+  /\ c.lpos = "charsetVal" => c.charset = "ok"
+  /\ c.lpos = "ctypeVal" => c.ctype = "ok"
+  /\ c.lpos = "cencVal" => c.cenc = "ok"
 KnownRequest(c) ==
   \/ c \in Requests
   \/ /\ c \in LexRequestType
      /\ c.lex \in LexAt[c.lpos]
      /\ c.body = LexBodyOf(c.lpos, c.lex)
+     /\ HdrPosConsistent(c)
 
 ValidReq == [verb |-> "POST", accept |-> "ok", charset |-> "ok",
              range |-> "absent", ctype |-> "ok", cenc |-> "ok",
